@@ -13,13 +13,15 @@ Definition colls : collections :=
 
 (** [numpy_wrap]: look the name up in HANDLED_UFUNCS / HANDLED_FUNCTIONS (last registration
     wins); an unknown name returns NotImplemented, which NumPy turns into a TypeError. *)
-Definition run_registered (regs : list (string * registration)) (env : uenv) (name : string)
+Definition run_registered_q (q : quirks) (regs : list (string * registration)) (env : uenv) (name : string)
     (la : largs) (extras : list (string * Qc)) : res pattern :=
   match lookup_last name regs with
   | Some (RTable b) => run_behaviour env b la
-  | Some (RSpecial impl) => run_special env impl name la extras
+  | Some (RSpecial impl) => run_special_q q env impl name la extras
   | None => Err EType
   end.
+
+Definition run_registered := run_registered_q repaired.
 
 Inductive ckind :=
 | KUfunc          (* np.<ufunc>(...)  -> __array_ufunc__   -> HANDLED_UFUNCS *)
@@ -49,29 +51,33 @@ Definition pattern_matches (p : pattern) (l : list (option uc)) : bool :=
   | PList l' => list_eqb ou_eqb l' l
   end.
 
-Definition c16_model (c : c16case) : res (pattern * option uc) :=
+Definition c16_model_q (q : quirks) (c : c16case) : res (pattern * option uc) :=
   match c with
   | K16 env kind name self la extras _ =>
       match kind, self with
-      | KUfunc, _ => do p <- run_registered ufunc_registrations env name la extras; Ok (p, None)
-      | KFunction, _ => do p <- run_registered function_registrations env name la extras; Ok (p, None)
+      | KUfunc, _ => do p <- run_registered_q q ufunc_registrations env name la extras; Ok (p, None)
+      | KFunction, _ => do p <- run_registered_q q function_registrations env name la extras; Ok (p, None)
       | KMethodWrap, Some u =>
           do r <- run_method_wrap env colls name u la (xget extras "size"); Ok (r.1, Some r.2)
       | KMethod, Some u =>
           (* NumpyQuantity.dot / .prod simply call np.dot(self, b) / np.prod(self, ...) *)
           if String.eqb name "dot" || String.eqb name "prod" then
-            do p <- run_registered function_registrations env name (("a", A1 (SQ u)) :: la) extras; Ok (p, Some u)
+            do p <- run_registered_q q function_registrations env name (("a", A1 (SQ u)) :: la) extras; Ok (p, Some u)
           else do r <- run_method_explicit env name u la; Ok (r.1, Some r.2)
       | _, None => Err EOther
       end
   end.
 
-Definition c16_ok (c : c16case) : bool :=
+Definition c16_model := c16_model_q repaired.
+
+(** [c16_ok_q q]: the model with defect switches [q] predicts the observation carried by the case *)
+Definition c16_ok_q (q : quirks) (c : c16case) : bool :=
   match c with
   | K16 _ _ _ _ _ _ obs =>
-      match c16_model c, obs with
+      match c16_model_q q c, obs with
       | Ok (p, s), OVal l s' => pattern_matches p l && ou_eqb s s'
       | Err e, OErr e' => err_eqb e e'
       | _, _ => false
       end
   end.
+Definition c16_ok := c16_ok_q repaired.
